@@ -8,14 +8,11 @@ import UnytProofs.Lemmas.C14Chunk05  -- build order only: at most four chunks ar
 namespace Unyt.C14
 
 /-- every listed name of chunk 9 (four slices of 64 rows) is read by the string route and by the
-    three attribute routes as the independent reference reads it (guard: word-prefixed °C) -/
+    three attribute routes as the independent reference reads it -/
 theorem names_slice_09_0 : namesSliceOk 9 0 = true := by decide +kernel
 theorem names_slice_09_1 : namesSliceOk 9 1 = true := by decide +kernel
 theorem names_slice_09_2 : namesSliceOk 9 2 = true := by decide +kernel
 theorem names_slice_09_3 : namesSliceOk 9 3 = true := by decide +kernel
-
-/-- every excluded name of chunk 9 really is unusable as a unit string -/
-theorem exclusions_chunk_09 : exclusionsChunkOk 9 = true := by decide +kernel
 
 /-- prefix spellings 3·9 … 3·9+2 (symbols, then word forms) are rejected on every
     non-prefixable spelling (three slices of 110 spelling rows) -/
